@@ -12,6 +12,7 @@ import (
 	"net"
 	"os"
 	"os/exec"
+	"path/filepath"
 	"sort"
 	"strings"
 	"sync"
@@ -243,9 +244,13 @@ func filterProbe(h rawHeader) rawHeader {
 }
 
 // runE2E starts the binary once per configuration and returns Gallina ecases + JSON.
-func runE2E(bin string, r *rng.R, configs int) ([]string, []any, error) {
+// configurations of valid rules that the binary refused to start with (filled by runE2E)
+var refused []e2eCaseJSON
+
+func runE2E(bin string, r *rng.R, configs int, outDir string) ([]string, []any, error) {
 	var cases []string
 	var js []any
+	refused = nil
 	for ci := 0; ci < configs; ci++ {
 		req, con, resp := genE2ERules(r), genE2ERules(r), genE2ERules(r)
 		if ci == 0 {
@@ -259,8 +264,24 @@ func runE2E(bin string, r *rng.R, configs int) ([]string, []any, error) {
 			// corpus configuration 2 (always runs): the client's User-Agent is removed by a rule; the next hop
 			// must see no User-Agent at all (no default invented after the rules ran)
 			req = []string{"-User-Agent"}
-			con = []string{"-user*"}
+			con = []string{"-user*", "X-Vf-A: a", "-X-Vf-A", "X-Vf-B: v", "%x-vf-b"}
 			resp = []string{"X-Vf-A: 1"}
+		}
+		// how the rules reach the binary: flags, or one YAML list per flag in --config-file (every third
+		// configuration and corpus configuration 3). Only the file form can carry a rule with a comma or a
+		// double quote (the flag form is CSV-split), so such values appear in file configurations only.
+		viaFile := ci%3 == 2
+		if ci == 2 {
+			req = []string{"X-Vf-A: en-US,en;q=0.9", "X-Vf-B: \"q\", z", "X-Vf-C: plain"}
+			con = []string{"X-Vf-A: a,b"}
+			resp = []string{"X-Vf-B: x,y", "-X-Vf-C"}
+		} else if viaFile {
+			if r.Chance(1, 2) {
+				req = append(req, "X-Vf-C: c1,c2")
+			}
+			if r.Chance(1, 2) {
+				resp = append(resp, "X-Vf-A: \"r\",s")
+			}
 		}
 		l, err := net.Listen("tcp", "127.0.0.1:0")
 		if err != nil {
@@ -271,35 +292,88 @@ func runE2E(bin string, r *rng.R, configs int) ([]string, []any, error) {
 		addr, api := freePort(), freePort()
 		args := []string{"run", "--address", addr, "--api-address", api, "--proxy", "http://" + l.Addr().String(),
 			"--log-level", "error"}
-		for _, s := range req {
-			args = append(args, "--header", s)
-		}
-		for _, s := range con {
-			args = append(args, "--connect-header", s)
-		}
-		for _, s := range resp {
-			args = append(args, "--response-header", s)
-		}
-		cmd := exec.Command(bin, args...)
-		cmd.Stdout, cmd.Stderr = os.Stderr, os.Stderr
-		if err := cmd.Start(); err != nil {
-			l.Close()
-			return nil, nil, err
-		}
-		ok := false
-		for i := 0; i < 100; i++ {
-			c, err := net.DialTimeout("tcp", addr, 200*time.Millisecond)
-			if err == nil {
-				c.Close()
-				ok = true
-				break
+		if viaFile {
+			var y strings.Builder
+			for _, kv := range []struct {
+				k  string
+				vs []string
+			}{{"header", req}, {"connect-header", con}, {"response-header", resp}} {
+				if len(kv.vs) == 0 {
+					continue
+				}
+				y.WriteString(kv.k + ":\n")
+				for _, v := range kv.vs {
+					y.WriteString("  - '" + strings.ReplaceAll(v, "'", "''") + "'\n")
+				}
 			}
-			time.Sleep(50 * time.Millisecond)
+			cf := filepath.Join(outDir, fmt.Sprintf("config_%03d.yaml", ci))
+			if err := os.WriteFile(cf, []byte(y.String()), 0o644); err != nil {
+				l.Close()
+				return nil, nil, err
+			}
+			args = append(args, "--config-file", cf)
+		} else {
+			for _, s := range req {
+				args = append(args, "--header", s)
+			}
+			for _, s := range con {
+				args = append(args, "--connect-header", s)
+			}
+			for _, s := range resp {
+				args = append(args, "--response-header", s)
+			}
+		}
+		// start the binary; a start that fails is retried twice on fresh ports (a port picked by freePort can
+		// be taken in between). A binary that EXITS BY ITSELF on every attempt refuses the (valid) rules.
+		var cmd *exec.Cmd
+		ok, exited := false, 0
+		for attempt := 0; attempt < 3 && !ok; attempt++ {
+			if attempt > 0 {
+				addr, api = freePort(), freePort()
+				args[2], args[4] = addr, api
+			}
+			cmd = exec.Command(bin, args...)
+			cmd.Stdout, cmd.Stderr = os.Stderr, os.Stderr
+			if err := cmd.Start(); err != nil {
+				l.Close()
+				return nil, nil, err
+			}
+			done := make(chan struct{})
+			go func(c *exec.Cmd) { c.Wait(); close(done) }(cmd)
+			for i := 0; i < 100 && !ok; i++ {
+				select {
+				case <-done:
+					i = 100
+				default:
+				}
+				if i >= 100 {
+					break
+				}
+				c, err := net.DialTimeout("tcp", addr, 200*time.Millisecond)
+				if err == nil {
+					c.Close()
+					ok = true
+					break
+				}
+				time.Sleep(50 * time.Millisecond)
+			}
+			if !ok {
+				select {
+				case <-done:
+					exited++
+				default:
+					cmd.Process.Kill()
+					<-done
+				}
+			}
 		}
 		if !ok {
-			cmd.Process.Kill()
-			cmd.Wait()
 			l.Close()
+			if exited == 3 {
+				refused = append(refused, e2eCaseJSON{"BinaryRefusesValidRules", req, con, resp, nil, nil,
+					map[bool]string{true: "config file", false: "flags"}[viaFile]})
+				continue
+			}
 			return nil, nil, fmt.Errorf("forwarder binary did not start listening on %s", addr)
 		}
 		cfg := fmt.Sprintf("{| request_rules := %s; connect_rules := %s; response_rules := %s |}",
@@ -308,6 +382,20 @@ func runE2E(bin string, r *rng.R, configs int) ([]string, []any, error) {
 			cases = append(cases, fmt.Sprintf("{| e_kind := %s; e_cfg := %s; e_in := %s; e_out := %s; e_probe := %s |}",
 				coqKind, cfg, coqRaw(filterProbe(in)), coqRaw(filterProbe(out)), probeList()))
 			js = append(js, e2eCaseJSON{kind, req, con, resp, filterProbe(in), filterProbe(out), where})
+		}
+		// the proxy's OWN CONNECT to the upstream (made by net/http's Transport for an https request): the
+		// connect rules applied to an empty header. User-Agent is not probed here (Go adds its default to a
+		// CONNECT it writes itself; not a header-rule matter).
+		emitOwn := func(out rawHeader) {
+			xo := rawHeader{}
+			for k, v := range filterProbe(out) {
+				if strings.ToLower(k) != "user-agent" {
+					xo[k] = v
+				}
+			}
+			cases = append(cases, fmt.Sprintf("{| e_kind := ReqConnect; e_cfg := %s; e_in := %s; e_out := %s; e_probe := %s |}",
+				cfg, coqRaw(rawHeader{}), coqRaw(xo), coqfmt.StrList(e2eNames)))
+			js = append(js, e2eCaseJSON{"ReqConnectOwn", req, con, resp, rawHeader{}, xo, "upstream proxy (CONNECT made by the proxy for an https request)"})
 		}
 		// two plain requests and two CONNECTs per configuration
 		for k := 0; k < 2; k++ {
@@ -375,6 +463,24 @@ func runE2E(bin string, r *rng.R, configs int) ([]string, []any, error) {
 				if err == nil && strings.Contains(first, " 403") {
 					emit("RespConnect", "RespConnect", up.respHead, rh, "client (rejected CONNECT)")
 				}
+			}
+		}
+		// an https request in absolute form: the Transport opens its own CONNECT to the upstream
+		{
+			c, err := net.DialTimeout("tcp", addr, time.Second)
+			if err == nil {
+				c.SetDeadline(time.Now().Add(5 * time.Second))
+				up.mu.Lock()
+				n0 := len(up.seen)
+				up.mu.Unlock()
+				c.Write([]byte("GET https://own.test/p HTTP/1.1\r\nHost: own.test\r\n\r\n"))
+				readHead(bufio.NewReader(c)) // 502: the scripted upstream does not speak TLS inside the tunnel
+				c.Close()
+				up.mu.Lock()
+				if len(up.seen) > n0 && strings.HasPrefix(up.seen[n0].first, "CONNECT own.test") {
+					emitOwn(up.seen[n0].h)
+				}
+				up.mu.Unlock()
 			}
 		}
 		cmd.Process.Kill()
